@@ -1,4 +1,5 @@
 import KoordVerif.Model.C05
+import KoordVerif.Model.C05Prof
 import KoordVerif.Generated.C05
 /-
 Tie lemmas for C05: guard orders and condition shapes extracted from /repo's current source
@@ -58,5 +59,72 @@ theorem tie_fit_shape :
 theorem tie_critical_sections :
     C05.criticalSections = ["updateReservation:Lock", "updateReservationIfExists:Lock", "DeleteReservation:Lock",
       "addPods:Lock", "updatePod:Lock", "deletePods:Lock", "ForEachMatchableReservationOnNode:RLock"] := by decide
+
+/-! ### several scheduler profiles (frameworkext/eventhandlers/reservation_handler.go, Model/C05Prof.lean) -/
+
+/-- deleteReservationFromSchedulerCache: returns first when Status.NodeName == ""; its ONE loop ranges over
+    GetAllReservationCaches(), calls DeleteReservation(r) unconditionally on every iteration and contains no
+    break / continue / return / goto (seeded change C05-f added a `break`); DeleteReservation is called nowhere else
+    in the function; the Range callback of GetAllReservationCaches always returns true (never stops early) -/
+theorem tie_every_cache_visited :
+    C05.deleteFirstGuard = "(#1.Status.NodeName == \"\"):return" ∧
+    C05.cacheLoop = ["range:GetAllReservationCaches()", "always:DeleteReservation(#1)"] ∧
+    C05.cacheLoopExits = [] ∧
+    C05.allCachesRangeReturns = ["true"] := by decide
+
+/-- the model's loop: every cache of the list gets the global handler's effect (`deliverAll` has the length of the
+    profile list and its canonical order is a plain map) -/
+theorem tie_loop_model (e : REv) (gf : Nat → Bool) : ∀ (cs : List Cache) (i : Nat),
+    (deliverFrom e gf i cs).length = cs.length ∧
+    deliverFrom e (fun _ => false) i cs = cs.map (fun c => globEv (plugEv c e) e) := by
+  intro cs
+  induction cs with
+  | nil => intro i; exact ⟨rfl, rfl⟩
+  | cons c t ih =>
+    intro i
+    refine ⟨by simp [deliverFrom, (ih (i + 1)).1], ?_⟩
+    simp [deliverFrom, (ih (i + 1)).2, evStep]
+
+/-- the scheduler-wide updateReservation: validation first, then the case order with the cache function (and the
+    object: #2 = old, #3 = new) each case calls; updateReservationInSchedulerCache turns a uid / node change into
+    delete(old)-then-add(new); add never deletes, delete always does; isReservationActive = unassigned and not
+    terminated; toReservation reads *Reservation and DeletedFinalStateUnknown -/
+theorem tie_global_handler_cases :
+    C05.globalUpdateCases = [
+      "(ValidateReservation(#3) != nil) => :return",
+      "((IsReservationFailed(#2) || IsReservationSucceeded(#2)) && (IsReservationFailed(#3) || IsReservationSucceeded(#3))) => :return",
+      "(IsReservationAvailable(#2) && IsReservationAvailable(#3)) => updateReservationInSchedulerCache(#1,#2,#3):return",
+      "(isReservationActive(#2) && IsReservationAvailable(#3)) => addReservationToSchedulerCache(#1,#3):return",
+      "(IsReservationAvailable(#2) && (IsReservationFailed(#3) || IsReservationSucceeded(#3))) => deleteReservationFromSchedulerCache(#1,#2):return",
+      "(IsReservationAvailable(#2) && isReservationActive(#3)) => deleteReservationFromSchedulerCache(#1,#2):return",
+      "(isReservationActive(#2) && isReservationActive(#3)) => :return",
+      "(isReservationActive(#2) && (IsReservationFailed(#3) || IsReservationSucceeded(#3))) => :return"] ∧
+    C05.globalUpdateInCache = ["((#1.UID != #2.UID) || (GetReservationNodeName(#1) != GetReservationNodeName(#2))) => deleteReservationFromSchedulerCache(#0,#1),addReservationToSchedulerCache(#0,#2):return"] ∧
+    C05.globalAddDeletes = [] ∧
+    C05.globalDeleteAlways = ["deleteReservationFromSchedulerCache(#1,#2)"] ∧
+    C05.globalActiveDef = "(((GetReservationNodeName(#0) == \"\") && !IsReservationFailed(#0)) && !IsReservationSucceeded(#0))" ∧
+    C05.toReservationShapes = ["Reservation", "DeletedFinalStateUnknown"] := ⟨rfl, rfl, rfl, rfl, rfl, rfl⟩
+
+/-- the model's `gUpdateDeletes` is that case analysis: invalid -> nothing; both terminated -> nothing; both available ->
+    only on a uid / node change; unassigned -> available: nothing; available -> terminated / unassigned: delete -/
+theorem tie_global_update_model (valid : Bool) (o n : RObj) :
+    gUpdateDeletes valid o n =
+      (valid && !(o.terminated && n.terminated) &&
+        (if o.available && n.available then (o.uid != n.uid || o.node != n.node)
+         else if o.unassigned && n.available then false
+         else if o.available && n.terminated then true
+         else if o.available && n.unassigned then true
+         else false)) ∧
+    (∀ o : RObj, o.unassigned = (o.node == 0 && !(o.phase == 3 || o.phase == 4))) ∧
+    (∀ k : Nat, toRsv k = decide (k ≤ 1)) := ⟨rfl, fun _ => rfl, fun _ => rfl⟩
+
+/-- the plugin's own reservation handler (one per profile): OnAdd / OnUpdate of an active reservation ->
+    updateReservation; OnUpdate to Failed / Succeeded -> updateReservationIfExists; OnDelete -> always
+    updateReservationIfExists (it never deletes: the real removal is the scheduler-wide handler's) -/
+theorem tie_plugin_rsv_handler :
+    C05.pluginRsvHandler = ["OnAdd:IsReservationActive() => updateReservation",
+      "OnUpdate:IsReservationActive() => updateReservation",
+      "OnUpdate:(IsReservationFailed() || IsReservationSucceeded()) => updateReservationIfExists",
+      "OnDelete:always => updateReservationIfExists"] := by decide
 
 end KoordVerif.C05
